@@ -233,12 +233,12 @@ func runActOp(w *simWorld, op actOp) (err error, panicked string) {
 			in := action.NewInstall(cfg)
 			in.ReleaseName, in.Namespace, in.DisableOpenAPIValidation = "app", "default", true
 			in.Replace, in.Atomic, in.DryRun, in.DisableHooks = op.Replace, op.Atomic, op.DryRun, op.DisableHooks
-			_, err = in.Run(ch, map[string]any{})
+			_, err = in.Run(ch, map[string]any{"v": op.Payload})
 		case "upgrade":
 			up := action.NewUpgrade(cfg)
 			up.Namespace, up.DisableOpenAPIValidation = "default", true
 			up.Atomic, up.CleanupOnFail, up.DryRun, up.DisableHooks, up.MaxHistory = op.Atomic, op.CleanupOnFail, op.DryRun, op.DisableHooks, op.MaxHistory
-			_, err = up.Run("app", ch, map[string]any{})
+			_, err = up.Run("app", ch, map[string]any{"v": op.Payload})
 		case "rollback":
 			rb := action.NewRollback(cfg)
 			rb.Version, rb.DryRun, rb.DisableHooks, rb.CleanupOnFail, rb.MaxHistory = op.Version, op.DryRun, op.DisableHooks, op.CleanupOnFail, op.MaxHistory
@@ -485,6 +485,28 @@ func runHistory(m *Model, rep *Report, r *Rng, backend string, faultLevel, nops 
 		cs := map[string]any{"backend": backend, "history": hist}
 		// C12: with hooks disabled no hook object is created or deleted -- by the operation or by the
 		// uninstall / rollback it runs on failure (--atomic)
+		// C01: every revision carries chart, values and manifest of one and the same source (a rollback copies all
+		// three from its target): the user value v was set to the chart's payload number when the revision was made
+		if rs, lerr := w.inner.List(func(*release.Release) bool { return true }); lerr == nil {
+			for _, rr := range rs {
+				if v, ok := rr.Config["v"]; ok && fmt.Sprint(v) != fmt.Sprint(payloadOf(rr)) {
+					rep.Issue(Issue{Kind: "monitor", Fingerprint: "C01:revision-content-mixed:" + op.Kind, What: fmt.Sprintf("revision %d carries chart %d but the values of %v", rr.Version, payloadOf(rr), v), Case: cs, Seed: seed, Index: idx})
+					break
+				}
+			}
+		}
+		// C12: a failed pre-hook gates the operation: none of the release's own resources is created, changed or
+		// deleted (without --atomic, whose rollback / uninstall legitimately touches them)
+		if op.F.PreHook == "fail" && !op.DisableHooks && !op.Atomic && !op.DryRun && op.F.Pre == "" {
+			w.api.mu.Lock()
+			for _, ev := range w.api.trace[t0:] {
+				if !strings.Contains(ev, "/hook-") && !strings.HasPrefix(ev, "GET ") && (strings.HasPrefix(ev, "POST ") || strings.HasPrefix(ev, "PUT ") || strings.HasPrefix(ev, "PATCH ") || strings.HasPrefix(ev, "DELETE ")) {
+					rep.Issue(Issue{Kind: "monitor", Fingerprint: "C12:prehook-failed-but-resources-touched:" + op.Kind, What: "the pre-hook of the operation failed and yet it sent " + ev, Case: cs, Seed: seed, Index: idx})
+					break
+				}
+			}
+			w.api.mu.Unlock()
+		}
 		if op.DisableHooks {
 			w.api.mu.Lock()
 			for _, ev := range w.api.trace[t0:] {
